@@ -973,10 +973,14 @@ func processValue(fset *token.FileSet, info *types.Info, call *ast.CallExpr) (*V
 				return false
 			}
 		case *ast.CallExpr:
-			// Only acceptable if it's a type conversion.
-			if _, isFunc := info.TypeOf(expr.Fun).(*types.Signature); isFunc {
-				ok = false
-				return false
+			// Only acceptable if it's a type conversion. The callee of a real
+			// call may have a named function type, so look at what kind of
+			// expression it is rather than at its type alone.
+			if tv := info.Types[expr.Fun]; !tv.IsType() && tv.Type != nil {
+				if _, isFunc := tv.Type.Underlying().(*types.Signature); isFunc {
+					ok = false
+					return false
+				}
 			}
 		default:
 			ok = false
